@@ -66,4 +66,22 @@ theorem timerInv_run (ops : List (Op α)) : ∀ s : St α, TimerInv s → TimerI
   | nil => intro s h; exact h
   | cons o os ih => intro s h; simp only [run]; exact ih _ (timerInv_step s o h)
 
+theorem step_token_mono (s : St α) (o : Op α) : s.token ≤ (step s o).1.token := by
+  cases o with
+  | add x => simp only [step, add]; split <;> simp
+  | isFull => simp [step]
+  | fire => simp [step]
+  | flush t => simp only [step, flush]; split <;> simp
+
+theorem run_token_mono (ops : List (Op α)) : ∀ s : St α, s.token ≤ (run s ops).1.token := by
+  induction ops with
+  | nil => intro s; simp [run]
+  | cons o os ih => intro s; simp only [run]; exact Nat.le_trans (step_token_mono s o) (ih _)
+
+theorem flush_token_succ (s : St α) (t : Tok) (h : (flush s t).2 ≠ []) : (flush s t).1.token = s.token + 1 := by
+  unfold flush at h ⊢
+  split
+  · rfl
+  · next hf => simp [hf] at h
+
 end Rxn.Batcher
